@@ -76,3 +76,23 @@ const char *opt_val(const shard_t *s, const char *key) {
   if (!p) return NULL; p += strlen(pat); e = strchr(p, ','); if (!e) e = p + strlen(p);
   snprintf(buf, sizeof buf, "%.*s", (int)(e - p), p); return buf;
 }
+
+static int priv_depth;
+void priv_begin(void) { if (priv_depth++ == 0) rec_alloc_logging(0); }
+void priv_end(void) { if (--priv_depth == 0) rec_alloc_logging(1); }
+void pool_set_from(int i, mpz_srcptr v) {
+  char *h = hex_of_limbs(PTR(v), ABSIZ(v), SIZ(v) < 0);
+  callf("drv_setz", i, h); free(h);
+}
+
+void drv_setf(mpf_ptr f, const char *hex, long exp) {
+  int neg = 0; size_t len, i; mp_size_t n; mp_ptr p = PTR(f);
+  if (*hex == '-') { neg = 1; hex++; }
+  while (*hex == '0' && hex[1]) hex++;
+  len = strlen(hex); n = (len + 15) / 16;
+  if (len == 1 && hex[0] == '0') { SIZ(f) = 0; EXP(f) = 0; return; }
+  if (n > PREC(f) + 1) { fprintf(stderr, "drv_setf: mantissa too long\n"); exit(3); }
+  for (i = 0; i < (size_t)n; i++) p[i] = 0;
+  for (i = 0; i < len; i++) { int c = hex[len - 1 - i], d = c <= '9' ? c - '0' : (c | 32) - 'a' + 10; p[i / 16] |= (mp_limb_t)d << (4 * (i % 16)); }
+  SIZ(f) = neg ? -n : n; EXP(f) = exp;
+}
